@@ -1315,6 +1315,11 @@ fn gen_c13(rng: &mut Rng, r: u64) -> Value {
     };
     let mut v = victim;
     v["mode"] = json!(if v["op"] == "list" { "sync" } else { f.1 });
+    // a commit that will be rejected (declared size does not match) is still a call whose filesystem operations can fail
+    if v["op"] == "write" && v["entry"] == "opts" && rng.chance(1, 4) {
+        let l = vals[v["val"].as_u64().unwrap_or(0) as usize]["len"].as_u64().unwrap_or(0);
+        v["opts"]["size"] = json!(match rng.below(3) { 0 => l + 1, 1 => l + 300, _ => l.saturating_sub(1) });
+    }
     let mut post = Vec::new();
     for fl in PURE {
         post.push(json!({"k":"audit","bin":fl.0,"mode":fl.1,"what":["metadata","read","read_hash","exists","list"]}));
